@@ -28,6 +28,16 @@ if TYPE_CHECKING:
 TAG_CYCLE = sys.intern("cycle")
 
 
+def _args_key(args: list[object]) -> str:
+    """Return the key of an unnamed cycle.
+
+    With autoescape enabled, string literals evaluate to `Markup`, which has a
+    different `repr()` to an equal `str`. Two cycles with equal items must share
+    their state whether or not autoescape is enabled.
+    """
+    return str([str(arg) if isinstance(arg, str) else arg for arg in args])
+
+
 class CycleNode(Node):
     """The built-in _cycle_ tag."""
 
@@ -63,7 +73,7 @@ class CycleNode(Node):
         if self.group_by_args:
             key: object = (group_name, tuple(args))
         else:
-            key = group_name if group_name else str(args)
+            key = group_name if group_name else _args_key(args)
 
         index = context.cycle(key, len(args))
 
@@ -89,7 +99,7 @@ class CycleNode(Node):
         if self.group_by_args:
             key: object = (group_name, tuple(args))
         else:
-            key = group_name if group_name else str(args)
+            key = group_name if group_name else _args_key(args)
 
         index = context.cycle(key, len(args))
 
